@@ -94,6 +94,31 @@ func runC09(c *eng.Ctx) {
 			"an upload is answered 'unchanged' (and not appended) only on a volume without TTL: on a TTL volume the append time of the stored copy is what expiry is counted from")
 	}
 
+	// ---------------------------------------------------------------- (0b) compaction keeps the append time
+	// a blob's clock starts when it was appended; copying it into the compacted file must not restart it (an expired
+	// blob would become readable again): the copy paths never assign Needle.AppendAtNs, the write path does
+	{
+		stamp := eng.StoreToField("Needle.AppendAtNs")
+		n := 0
+		for _, spec := range [][2]string{{"weed/storage", "copyDataBasedOnIndexFile"}, {"weed/storage", "(*VolumeFileScanner4Vacuum).VisitNeedle"}} {
+			fn := c.NeedFunc(spec[0], spec[1])
+			if fn == nil {
+				continue
+			}
+			bad := 0
+			for _, f := range eng.WithAnon(fn) {
+				bad += len(eng.Find(f, stamp))
+			}
+			n++
+			c.Ob("GUARD-rewrite-restarts-clock", eng.FuncName(fn)+" copy-keeps-append-time", bad == 0, fn.Pos(), "a needle copied by compaction keeps the append time it was written with")
+		}
+		okPos := false
+		if w := c.NeedFunc("weed/storage", "(*Volume).doWriteRequest"); w != nil {
+			okPos = len(eng.Find(w, stamp)) > 0
+		}
+		c.Ob("GUARD-rewrite-restarts-clock", "matcher self-test", okPos && n == 2, token.NoPos, "the write path stamps Needle.AppendAtNs (the matcher recognises the assignment)")
+	}
+
 	// ---------------------------------------------------------------- (1) SIB-expiry
 	reader := c.NeedFunc("weed/storage", "(*Volume).readNeedle")
 	if reader != nil {
